@@ -5,6 +5,7 @@ import (
 	"encoding/hex"
 	"encoding/json"
 	"fmt"
+	"math"
 	"math/big"
 
 	"github.com/ethereum/go-ethereum/common"
@@ -54,6 +55,14 @@ func (m ClientState) GetLatestHeight() exported.Height {
 }
 
 func (m ClientState) Validate() error {
+	// Initialize and UpgradeState compute Height % Epoch
+	if m.Epoch == 0 {
+		return sdkerrors.Wrap(ErrInvalidGenesisBlock, "epoch cannot be zero")
+	}
+	// the chain id is signed as big.NewInt(int64(ChainId)); rlp refuses negative integers
+	if m.ChainId > math.MaxInt64 {
+		return sdkerrors.Wrap(ErrInvalidGenesisBlock, "chain id overflows int64")
+	}
 	return m.Header.ValidateBasic()
 }
 
